@@ -272,6 +272,19 @@ def run(eng, ctx, reader_side=True):
                 return c[0] == "call" and c[2][0] == "attr" and c[2][2] == "endswith" and c[2][1] in allowed and c[3] == (("const", b"\r\n"),) and pol
 
             crlf = any(any(crlf_lit(c, pol, (after,)) for c, pol in st.guards) for st in brk)
+            if not crlf:
+                # previous-byte form: break when prev == b"\r" and data == b"\n", prev being the byte read by the previous iteration
+                # (it starts as something other than CR and every iteration that goes round again sets it to the byte it read)
+                for st in brk:
+                    lits = [(c, pol) for c, pol in st.guards if c[0] == "cmp" and c[1] == "==" and pol]
+                    cr = [c[2] for c, _ in lits if c[3] == ("const", b"\r") and c[2][0] == "loop" and c[2][1] == lid]
+                    lf = [c for c, _ in lits if c[3] == ("const", b"\n") and c[2] == d]
+                    for pv in cr:
+                        pname = pv[2]
+                        pre_ok = info["pre"].get(pname) is not None and is_const(info["pre"][pname]) and info["pre"][pname][1] != b"\r"
+                        again = [st2.env.get(pname) for k2, st2 in info.get("ends", []) if k2 == "continue"] + ([info["body_end"].get(pname)] if not info.get("body_dead") and info.get("body_end") is not None else [])
+                        if lf and pre_ok and again and all(x == d for x in again):
+                            crlf = True
             tst = info.get("test")
             crlf_in_test = tst is not None and tst[0] == "cmp" and tst[1] == "!=" and tst[3] == ("const", b"\r\n") and last2(tst[2], (("loop", lid, var),))
             # the loop condition may also be "the byte just read is there" (`while len(data := self.read(1)) == 1`): leaving on a false test is the empty-read exit
